@@ -77,7 +77,8 @@ class LeakyTanh(AbstractBijection):
     def inverse(self, y, condition=None):
         is_linear = jnp.abs(y) >= jnp.tanh(self.max_val)
         x_linear = (y - jnp.sign(y) * self.intercept) / self.linear_grad
-        x_arctan = jnp.arctanh(y)
+        # Avoid nan gradients from arctanh outside (-1, 1) in the unselected branch
+        x_arctan = jnp.arctanh(jnp.where(is_linear, 0, y))
         return jnp.where(is_linear, x_linear, x_arctan)
 
     def inverse_and_log_det(self, y, condition=None):
